@@ -1,6 +1,9 @@
-"""C05 — shortest-vector tables: the counting/filling kernels and the storage conversions."""
+"""C05 — shortest-vector tables: the counting/filling kernels, the Python glue around them, storage conversions."""
 from contracts import c_svecs as SV
+from contracts import py_svecs as PS
 
 
 def build(run):
     run.verify_c([SV.dense_contract(run.sink), SV.sparse_contract(run.sink), SV.sparse_contract(run.sink, tie_bound=False)])
+    PS.shortest_pairs_glue(run)
+    PS.primitive_svecs_transform(run)
